@@ -91,6 +91,9 @@ func (c *declChecker) check() []error {
 	if c.decl.IsExternal() && len(c.decl.Modes()) != 1 {
 		c.errs = append(c.errs, fmt.Errorf("external predicate must have exactly one mode"))
 	}
+	if c.decl.DeferredPredicate() && len(c.decl.Modes()) == 0 {
+		c.errs = append(c.errs, fmt.Errorf("deferred predicate must have a mode"))
+	}
 	if !c.decl.IsSynthetic() && len(expectedArgs) > 0 && len(expectedArgs) != len(p.Args) {
 		c.errs = append(c.errs, fmt.Errorf("missing arg atoms for arguments %v", expectedArgs))
 	}
